@@ -446,4 +446,10 @@ def run(p, rep, tier):
     r9(p, rep)
     r10(p, rep)
     r11(p, rep)
+    from . import c06 as _c06
+
+    _c06.r6(p, rep, parts=("leaves",))  # the description reaches the parser through the cache-key freezing
+    from . import c11 as _c11
+
+    _c11.r8(p, rep)  # a backend whose factory module deviates from its siblings behaves differently for this property
     rep.info["undecided"] = "structural round-trip equality for all strings and termination of the recursive descent; only the alphabet/progress/dispatch/position clauses are decided"
